@@ -202,11 +202,11 @@ mod verif_c13_general_handler {
         }
     }
 
-    /// Other range forms: `lo..hi` and `lo..`.
-    //@ obligation C13 C13.install_other_range_forms.present_exactly_non_reserved_in_range tier=thorough
+    /// Another range form: `lo..hi` (end excluded).
+    //@ obligation C13 C13.install_range_exclusive.present_exactly_non_reserved_in_range tier=thorough
     #[kani::proof]
     #[kani::stub(crate::addr::VirtAddr::new, virt_addr_new_unchecked)]
-    fn c13_install_range_exclusive_and_from() {
+    fn c13_install_range_exclusive() {
         verif_hw::reset_symbolic();
         let cs = verif_hw::m().cs;
         let lo: u8 = kani::any();
@@ -214,35 +214,46 @@ mod verif_c13_general_handler {
         let v: u8 = kani::any();
         let mut idt = any_table();
         let prior = idt.clone();
-        kani::cover!(true, "c13_install_range_exclusive_and_from: reachable");
-        if kani::any() {
-            crate::set_general_handler!(&mut idt, gh_nop, lo..hi);
-            let x = raw_vector(&idt, v);
-            if lo <= v && v < hi && !is_reserved(v) {
-                assert!(
-                    g_p(x) && g_selector(x) == cs && g_default_interrupt_gate(x),
-                    "C13.install_other_range_forms.present_exactly_non_reserved_in_range: lo..hi: present"
-                );
-            } else {
-                assert!(
-                    x == raw_vector(&prior, v),
-                    "C13.install_other_range_forms.present_exactly_non_reserved_in_range: lo..hi: untouched"
-                );
-            }
+        kani::cover!(true, "c13_install_range_exclusive: reachable");
+        crate::set_general_handler!(&mut idt, gh_nop, lo..hi);
+        let x = raw_vector(&idt, v);
+        if lo <= v && v < hi && !is_reserved(v) {
+            assert!(
+                g_p(x) && g_selector(x) == cs && g_default_interrupt_gate(x),
+                "C13.install_range_exclusive.present_exactly_non_reserved_in_range: lo..hi: present default interrupt gate"
+            );
         } else {
-            crate::set_general_handler!(&mut idt, gh_nop, lo..);
-            let x = raw_vector(&idt, v);
-            if lo <= v && !is_reserved(v) {
-                assert!(
-                    g_p(x) && g_selector(x) == cs && g_default_interrupt_gate(x),
-                    "C13.install_other_range_forms.present_exactly_non_reserved_in_range: lo..: present"
-                );
-            } else {
-                assert!(
-                    x == raw_vector(&prior, v),
-                    "C13.install_other_range_forms.present_exactly_non_reserved_in_range: lo..: untouched"
-                );
-            }
+            assert!(
+                x == raw_vector(&prior, v),
+                "C13.install_range_exclusive.present_exactly_non_reserved_in_range: lo..hi: untouched"
+            );
+        }
+    }
+
+    /// Another range form: `lo..` (up to vector 255).
+    //@ obligation C13 C13.install_range_from.present_exactly_non_reserved_in_range tier=thorough
+    #[kani::proof]
+    #[kani::stub(crate::addr::VirtAddr::new, virt_addr_new_unchecked)]
+    fn c13_install_range_from() {
+        verif_hw::reset_symbolic();
+        let cs = verif_hw::m().cs;
+        let lo: u8 = kani::any();
+        let v: u8 = kani::any();
+        let mut idt = any_table();
+        let prior = idt.clone();
+        kani::cover!(true, "c13_install_range_from: reachable");
+        crate::set_general_handler!(&mut idt, gh_nop, lo..);
+        let x = raw_vector(&idt, v);
+        if lo <= v && !is_reserved(v) {
+            assert!(
+                g_p(x) && g_selector(x) == cs && g_default_interrupt_gate(x),
+                "C13.install_range_from.present_exactly_non_reserved_in_range: lo..: present default interrupt gate"
+            );
+        } else {
+            assert!(
+                x == raw_vector(&prior, v),
+                "C13.install_range_from.present_exactly_non_reserved_in_range: lo..: untouched"
+            );
         }
     }
 
